@@ -103,9 +103,13 @@ def _run_model_one(drv, case):
         m = su.model_2d(drv, case, prog, prog["Frand"] if prog.get("Frand") is not None else su.recorded_frand(0))
         m["is2D"] = True
         return m
+    mi = su.model_init(case)
+    if mi is not None:
+        return mi
     rec = su.record_inputs(case)
     if rec.get("raise"):
-        return {"raise": rec["raise"], "stage": "init"}
+        # the rule says this case constructs; the model cannot echo the implementation
+        return {"raise": None, "stage": "init", "no_constants": rec["raise"]}
     prog = su.programs(case)[0]
     if case.get("Nrep"):
         # repetition i of a study = the single run whose F_rand is the draw of seed i
@@ -131,9 +135,9 @@ def _compare_one(case, impl, model):
     dis = []
     if model is None:
         return dis
-    if impl.get("raise"):
-        if impl["raise"] != model.get("raise"):
-            dis.append(f"init exception: impl {impl['raise']} vs model {model.get('raise')}")
+    if impl.get("raise") or model.get("stage") == "init":
+        if (impl.get("raise") or None) != (model.get("raise") or None):
+            dis.append(f"init exception: impl {impl.get('raise')} vs rule {model.get('raise')}")
         return dis
     run = impl["runs"][0]
     if model.get("is2D"):
@@ -166,6 +170,8 @@ def _compare_one(case, impl, model):
     dt = _dt(case, impl["const"])
     if case["dim"] == "1D" and not close(dt, model["dt"]):
         dis.append(f"dt: derived {dt} vs model {model['dt']}")
+    if res.get("t_nuc") is None:
+        return dis + ["results row of a run that returned has no t_nuc"]
     i_impl = _step_of(res["t_nuc"], dt)
     if i_impl != model["NtCoolEnd"]:
         if _is_tie(model, i_impl):
@@ -305,6 +311,10 @@ def _predicates_one(case, impl):
     dim = case["dim"]
     site = f"_run_{dim}"
     res = run["snap"]["results"]
+    if not isinstance(res, dict) or "raise" in res or any(v is None for v in res.values()):
+        out.append(Failure(clause="stats_at_nucleation_instant", key=f"results_incomplete|{site}|",
+                           detail=f"run() returned but the results row is {res}"))
+        return out
     c = impl["const"]
     dt = _dt(case, c)
     fr = run["Frand"]
@@ -329,17 +339,27 @@ def _predicates_one(case, impl):
         out.append(Failure(clause="history", key=f"cooling_rows_missing|{site}|",
                            detail=f"fewer recorded cooling rows than steps up to t_nuc ({len(T)} vs {i_end + 1})"))
         return out
+    # the code decides `1 - exp(-E) > F_rand` on doubles: evaluate the crossing in F-space. Margin = the
+    # uncertainty of the re-computed E (1e-7 relative) mapped into F, plus the quantisation of F near 1 (4 ulp):
+    # a decision inside the margin is a tie, not a failure (same rule as `compare`)
     E_rand = -math.log1p(-fr) if fr < 1 else math.inf
-    rel = 1e-7
-    if not (E[i_end] > E_rand * (1 - rel)):
+
+    def F_of(e):
+        return 1.0 - math.exp(-e)
+
+    def margin(e):
+        return 1e-7 * e * math.exp(-e) + 4 * 2.220446049250313e-16
+
+    if F_of(E[i_end]) < fr - margin(E[i_end]):
         out.append(Failure(clause="nuc_first_crossing", key=f"nuc_first_crossing|{site}|early",
-                           detail=f"nucleated at step {i_end} although E={E[i_end]!r} has not reached "
-                                  f"-log(1-F_rand)={E_rand!r}"))
-    if i_end > 0 and not (E[i_end - 1] <= E_rand * (1 + rel)):
-        j0 = next(j for j in range(i_end) if E[j] > E_rand * (1 + rel))
+                           detail=f"nucleated at step {i_end} although E={E[i_end]!r} (F={F_of(E[i_end])!r}) has not "
+                                  f"reached F_rand={fr!r} (-log(1-F_rand)={E_rand!r})"))
+    late = [j for j in range(i_end) if F_of(E[j]) > fr + margin(E[j])]
+    if late:
+        j0 = late[0]
         out.append(Failure(clause="nuc_first_crossing", key=f"nuc_first_crossing|{site}|late",
-                           detail=f"nucleated at step {i_end} although E crossed -log(1-F_rand)={E_rand!r} "
-                                  f"already at step {j0} (E={E[j0]!r})"))
+                           detail=f"nucleated at step {i_end} although F_nuc={F_of(E[j0])!r} exceeded F_rand={fr!r} "
+                                  f"already at step {j0} (E={E[j0]!r}, -log(1-F_rand)={E_rand!r})"))
     # coarse cross-check of the volume element with a second quadrature
     Et = _reconstruct_E(case, impl, run, "trapezoid")
     if dim != "0D" and E[i_end] > 0 and not (0.2 < Et[i_end] / E[i_end] < 5.0):
@@ -417,7 +437,7 @@ def compare(case, impl, model):
 
 
 def predicates(case, impl):
-    out = []
+    out = su.init_failures(case, impl, Failure)
     for k, (ck, ik) in enumerate(_views(case, impl)):
         if ik.get("runs") and "snap" not in ik["runs"][0]:
             continue
